@@ -79,6 +79,21 @@ CLAIMED = {
         note=STATIC_NOTE + 'pmutt.constants modelled as verified by C12; _force_pass_arguments by its documented '
              'contract; numeric values and array T are not decided here.',
         ref='DESIGN.md section 4 C04'),
+    'C05': dict(
+        technique='abstract interpretation of writer and reader over an abstract string domain (literal text + symbolic '
+                  'fields of known width and character class); composition reader(writer(x)) compared with x; '
+                  'enumeration of field-width combinations',
+        text='Decides, for every enumerated combination of field widths (names of 1/8/15 characters, notes absent/short/'
+             'full or a date stamp, 1-4 elements with one- and two-letter symbols, 1-3 digit counts and zero-count '
+             'entries, temperatures of 3-6 characters, 1-3 species, list/dict input, list/tuple/dict output) and for '
+             'all values of those fields at once, that the written records follow the Chemkin columns (80 columns, '
+             'record digit in column 80, five 15-character coefficient fields with nine significant digits, composition '
+             'cells at columns 25-44, phase in column 45) and that read_thermdat(write_thermdat(species)) rebuilds the '
+             'same species in the same order with the same names, phases, compositions, temperatures and all 14 '
+             'coefficients; record lines are never classified by a test whose outcome depends on user-controlled text.',
+        note=STATIC_NOTE + 'E-format widths assume |exponent| < 100; float()/int() of a single numeric field is taken '
+             'to return the number printed there; file I/O is modelled as a list of lines.',
+        ref='DESIGN.md section 4 C05'),
     'C08': dict(
         technique='abstract interpretation of Reaction/ChemkinReaction/SurfaceReaction with uninterpreted species and '
                   'symbolic stoichiometry; normal-form identities; effect check on caller dictionaries',
